@@ -72,3 +72,13 @@ func simRecoverTypecheck() {
 	}
 	SimTypecheckExit(recover())
 }
+
+// SimFault, when set, is called at named fault points ("buggify"): the simulator may make
+// the calling goroutine fail there (e.g. panic) to exercise the error paths around it.
+var SimFault func(point string)
+
+func simFaultPoint(point string) {
+	if SimFault != nil {
+		SimFault(point)
+	}
+}
